@@ -266,6 +266,121 @@ def vec_get(shape, vec, what, ci, fi=None):
     return vec[names.index(key)]
 
 
+# ---------------------------------------------------------------------- scale
+def big_diff(nhunks, codec, nlk, straddle):
+    """(bytes, insertions, deletions) of a diff with `nhunks` hunks of known
+    counts in `codec`; with `straddle`, a multi-byte character is placed so
+    that it starts just before every buffer-size boundary (a block-wise
+    decoder that cuts at byte offsets splits it)."""
+    from mc.spec import enc_nobom, signature
+    from mc.alphabets import BUFFER_SIZES
+    c = codec or 'ascii'
+    nl = {'unix': '\n', 'dos': '\r\n'}[nlk]
+    ch = 'e' if codec is None else (
+        '\U0001f600' if codec.startswith('utf-16') else 'é')
+
+    def enc(x):
+        return enc_nobom(x, c)
+    w = len(enc('a'))
+    half = len(enc(ch)) // 2
+    targets = sorted(B - half for B in BUFFER_SIZES) \
+        if (straddle and codec and len(enc(ch)) > w) else []
+    hunk_span = len(enc('@@ -99990,2 +99990,3 @@ ctx' + nl + ' keep 9999' +
+                        nl + '-old 9999' + nl + '+new 9999 X' + nl +
+                        '+more 9999' + nl)) + 8 * w
+    out = []
+    size = [0]
+
+    def emit(line):
+        bts = enc(line + nl)
+        out.append(bts)
+        size[0] += len(bts)
+    emit('--- a/f')
+    emit('+++ b/f')
+    ins = dels = 0
+    for h in range(nhunks):
+        emit('@@ -%d,2 +%d,3 @@ ctx' % (h * 10 + 1, h * 10 + 1))
+        emit(' keep %d' % h)
+        emit('-old %d' % h)
+        prefix = '+new %d ' % h
+        start = size[0] + len(enc(prefix))
+        while targets and targets[0] < start:
+            targets.pop(0)
+        if targets and targets[0] < start + hunk_span and \
+                (targets[0] - start) % w == 0:
+            prefix += 'p' * ((targets[0] - start) // w)
+            targets.pop(0)
+        emit(prefix + ch)
+        emit('+more %d' % h)
+        ins += 2
+        dels += 1
+    data = b''.join(out)
+    if codec in ('utf-16', 'utf-32'):
+        data = signature(c) + data
+    return data, ins, dels
+
+
+SCALE_HUNKS = [1, 9, 10, 11, 20, 75, 150, 300, 1200, 2500]
+SCALE_RENDER = [(None, 'unix', False), (None, 'dos', False),
+                ('utf-8', 'unix', True), ('utf-8', 'dos', True),
+                ('utf-16', 'unix', True), ('utf-16-le', 'dos', True),
+                ('utf-16-be', 'unix', True), ('utf-32', 'unix', False),
+                ('latin-1', 'unix', False)]
+
+
+def check_scale(nh, ri, explicit_le, second_tree):
+    codec, nlk, straddle = SCALE_RENDER[ri]
+    data, ins, dels = big_diff(nh, codec, nlk, straddle)
+    if codec == 'utf-16-be' and nh % 2:
+        data = b'\xfe\xff' + data          # big-endian text with a BOM
+        codec_decl = 'utf-16'
+    else:
+        codec_decl = codec
+
+    def mk():
+        d = DiffX(meta={'keep': 'me'})
+        ch = d.add_change(meta={'id': 'c'})
+        attrs = {'meta': {'path': 'big'}, 'diff': bytes(bytearray(data))}
+        if codec_decl:
+            attrs['diff_encoding'] = codec_decl
+        if explicit_le:
+            attrs['diff_line_endings'] = nlk
+        ch.add_file(**attrs)
+        ch.add_file(meta={'path': 'small'},
+                    diff=('\n'.join(hunk_lines('DI')) + '\n').encode())
+        return d
+    v = []
+    trees = [mk(), mk()] if second_tree else [mk()]
+    for t in trees:
+        t.generate_stats()
+    for t in trees:
+        st = t.changes[0].files[0].meta.get('stats')
+        want = {'insertions': ins, 'deletions': dels,
+                'lines changed': ins + dels}
+        if st != want:
+            v.append(('file-stats-wrong:scale:%s' % (codec or 'none'),
+                      '%d hunks (%d bytes, %s, %s): stats %r expected %r'
+                      % (nh, len(data), codec_decl, nlk, st, want)))
+        cs = t.changes[0].meta.get('stats')
+        if cs != {'files': 2, 'insertions': ins + 1, 'deletions': dels + 1,
+                  'lines changed': ins + dels + 2}:
+            v.append(('change-stats-wrong:scale', repr(cs)))
+    if second_tree:
+        a = trees[0].changes[0].files[0].meta
+        b = trees[1].changes[0].files[0].meta
+        if a.get('stats') is b.get('stats') and a.get('stats') is not None:
+            v.append(('stats-dict-shared-between-trees:scale',
+                      'two trees holding equal %d-byte diffs share one '
+                      'meta["stats"] object' % len(data)))
+        if isinstance(a.get('stats'), dict):
+            a['stats']['insertions'] = -1
+        if isinstance(b.get('stats'), dict) and \
+                b['stats'].get('insertions') == -1:
+            v.append(('stats-aliased-between-trees:scale',
+                      'editing one tree\'s stats changed the other'))
+    return v
+
+
 # ------------------------------------------------------------------ histories
 # generate_stats() on a tree that was already analysed and then edited must
 # give what a fresh tree in the same state gives (differential oracle: the
@@ -400,6 +515,8 @@ def plan(tier):
             units.append((si, combos[i:i + step]))
     # full product for the single-file tree: variant x render x kind x pre
     units.append(('single',))
+    for nh in SCALE_HUNKS:
+        units.append(('scale', nh))
     # histories: generate, edit, (edit,) generate vs fresh tree
     nops = len(hist_ops(2))
     for base in range(3):
@@ -420,7 +537,11 @@ def plan(tier):
                 'top level; every choice vector with <= %d non-default '
                 'slots, plus the full product for the one-file tree. '
                 'Non-trivial: >= 2 files with different variants, or a '
-                'multi-byte encoding. Histories: generate_stats(), then every '
+                'multi-byte encoding. Scale: diffs of 1..2500 hunks (up to '
+                '~130 KB) x 9 renderings with multi-byte characters placed '
+                'just before every buffer-size boundary (1024/4096/8192/65536) '
+                'and BOM-prefixed big-endian text, in one and in two live '
+                'trees. Histories: generate_stats(), then every '
                 'sequence of 1-2 (thorough 3) edits from %d operations (stats '
                 'overwritten / deleted, diff_encoding / line_endings / type '
                 'changed, diff replaced, files added / removed, partial '
@@ -451,6 +572,24 @@ def run_unit(unit, tier):
                                      'vec': list(vec)})
         acc.outcome('ok' if not viols else 'violation')
 
+    if unit[0] == 'scale':
+        nh = unit[1]
+        for ri in range(len(SCALE_RENDER)):
+            for explicit in (False, True):
+                for second in (False, True):
+                    viols = check_scale(nh, ri, explicit, second)
+                    acc.evals += 1
+                    acc.states += 1
+                    acc.transitions += 2
+                    acc.validated += 1
+                    acc.nontrivial += 1
+                    for key, msg in viols:
+                        acc.violation(key, msg, {'kind': 'scale', 'nh': nh,
+                                                 'ri': ri, 'le': explicit,
+                                                 'second': second})
+                    acc.outcome('ok' if not viols else 'violation')
+        acc.sample({'scale_hunks': nh, 'renderings': len(SCALE_RENDER)}, 1)
+        return acc
     if unit[0] == 'hist':
         _, base, a = unit
         shape = (2,)
@@ -512,6 +651,9 @@ def run_unit(unit, tier):
 
 
 def replay(payload):
+    if payload.get('kind') == 'scale':
+        return [{'key': k, 'msg': m} for k, m in check_scale(
+            payload['nh'], payload['ri'], payload['le'], payload['second'])]
     if payload.get('kind') == 'hist':
         ops = [tuple(o) for o in from_jsonable(payload['ops'])]
         viols = check_history((2,), payload['vec'], ops)
